@@ -579,22 +579,27 @@ theorem lg_sigwatchLoop (fuel : Nat) (st : St) (s : Int) (this : Option Nat) : L
   lg_sigwatchLoopT fuel st s this
 
 
-theorem lg_sigSnapLoopT (fuel : Nat) (s : Int) (l : List Nat) : ∀ st : St, LogExt st (sigSnapLoopT fuel st s l).1 := by
+theorem lgG_sigSnapLoop (cb : St → Nat → St) (hcb : ∀ st a, LogExt st (cb st a)) (l : List Nat) :
+    ∀ st : St, LogExt st (sigSnapLoopG cb st l).1 := by
   induction l with
   | nil => intro st; exact LogExt.refl st
   | cons a rest ih =>
     intro st
-    unfold sigSnapLoopT
+    unfold sigSnapLoopG
     split
     · exact LogExt.refl _
     · split
-      · exact (lg_fail _ _)
+      · exact lg_fail _ _
       · split
         · exact ih _
         · split
-          · exact (lg_fail _ _)
-          · exact (lg_sigCb _ _ _ _).trans (ih _)
+          · exact lg_fail _ _
+          · exact (hcb _ _).trans (ih _)
 
+theorem lg_sigSnapLoopT (fuel : Nat) (s : Int) (l : List Nat) : ∀ st : St, LogExt st (sigSnapLoopT fuel st s l).1 := by
+  intro st
+  rw [sigSnapLoopT_eq_G]
+  exact lgG_sigSnapLoop _ (fun st a => lg_sigCb fuel st a s) l st
 
 theorem lg_sigDispatch (fuel : Nat) (st : St) (s : Int) : LogExt st (sigDispatch fuel st s) := by
   unfold sigDispatch
@@ -896,18 +901,22 @@ theorem sigwalk_logged (fuel : Nat) : ∀ (st : St) (s : Int) (this : Option Nat
                   · rw [hsame.1]; exact hsig
                   · rw [hsame.2]; exact hslot
 
-/-- The repaired walk: the same for every watch of the snapshot. -/
-theorem sigsnap_logged (fuel : Nat) (s : Int) (l : List Nat) : ∀ st : St, SInv st →
-    (sigSnapLoopT fuel st s l).1.status = .ok →
-    ∀ b ∈ l, b < st.heap.length → b ∈ (sigSnapLoopT fuel st s l).1.signals →
+/-- The repaired walk, for any body `cb` that respects the list of signal watches, only adds to the log, and logs
+    the FIRE entry of a harness watch of signal `s` it is run for: every such watch of the snapshot that is still in
+    the list when the walk returns normally has its entry in the log. -/
+theorem sigsnapG_logged (cb : St → Nat → St) (s : Int) (hcb : ∀ st a, SigStep st (cb st a)) (hlg : ∀ st a, LogExt st (cb st a))
+    (hmem : ∀ st a, (st.getW a).signum = s → (st.getW a).slot ≥ 0 → Ev.cb (st.getW a).slot EV_FIRE .none ∈ (cb st a).log)
+    (l : List Nat) : ∀ st : St, SInv st →
+    (sigSnapLoopG cb st l).1.status = .ok →
+    ∀ b ∈ l, b < st.heap.length → b ∈ (sigSnapLoopG cb st l).1.signals →
       (st.getW b).signum = s → (st.getW b).slot ≥ 0 →
-      Ev.cb (st.getW b).slot EV_FIRE .none ∈ (sigSnapLoopT fuel st s l).1.log := by
+      Ev.cb (st.getW b).slot EV_FIRE .none ∈ (sigSnapLoopG cb st l).1.log := by
   induction l with
   | nil => intro st _ _ b hb; cases hb
   | cons a rest ih =>
     intro st i
-    have hstep := step_sigSnapLoopT fuel s (a :: rest) st i
-    unfold sigSnapLoopT at hstep ⊢
+    have hstep := stepG_sigSnapLoop cb hcb (a :: rest) st i
+    unfold sigSnapLoopG at hstep ⊢
     split
     · rename_i h; intro hok; exact St.not_ok_absurd h hok
     · split
@@ -929,12 +938,12 @@ theorem sigsnap_logged (fuel : Nat) (s : Int) (l : List Nat) : ∀ st : St, SInv
         · split
           · intro hok; exact absurd hok (St.status_fail_ne _ _)
           · intro hok b hb hblt hbfin hsig hslot
-            have f1 := step_sigCb fuel st a s i
-            have lrest := lg_sigSnapLoopT fuel s rest (sigCb fuel st a s)
+            have f1 := hcb st a i
+            have lrest := lgG_sigSnapLoop cb hlg rest (cb st a)
             simp only [List.mem_cons] at hb
             by_cases hba : b = a
             · subst hba
-              exact lrest.mem (mem_sigCb fuel st b s hsig hslot)
+              exact lrest.mem (hmem st b hsig hslot)
             · have hbr : b ∈ rest := by
                 cases hb with
                 | inl h => exact absurd h hba
@@ -944,5 +953,16 @@ theorem sigsnap_logged (fuel : Nat) (s : Int) (l : List Nat) : ∀ st : St, SInv
               apply ih _ f1.inv hok b hbr (Nat.lt_of_lt_of_le hblt f1.ext.len) hbfin
               · rw [hsame.1]; exact hsig
               · rw [hsame.2]; exact hslot
+
+/-- The repaired walk: the same for every watch of the snapshot. -/
+theorem sigsnap_logged (fuel : Nat) (s : Int) (l : List Nat) : ∀ st : St, SInv st →
+    (sigSnapLoopT fuel st s l).1.status = .ok →
+    ∀ b ∈ l, b < st.heap.length → b ∈ (sigSnapLoopT fuel st s l).1.signals →
+      (st.getW b).signum = s → (st.getW b).slot ≥ 0 →
+      Ev.cb (st.getW b).slot EV_FIRE .none ∈ (sigSnapLoopT fuel st s l).1.log := by
+  intro st
+  rw [sigSnapLoopT_eq_G]
+  exact sigsnapG_logged _ s (fun st a => step_sigCb fuel st a s) (fun st a => lg_sigCb fuel st a s)
+    (fun st a hs hk => mem_sigCb fuel st a s hs hk) l st
 
 end Tickit.EvLoop
